@@ -6,11 +6,11 @@ CONSTANTS
   MaxBranches = 2
   MaxDup = 1
   MaxForeign = 0
-  AllowTimeout = TRUE
-  OblTruthful = TRUE
+  AllowTimeout = FALSE
+  OblTruthful = FALSE
   OblLockCover = TRUE
   OblDirtyRefused = TRUE
   OblIdempotent = TRUE
   OblFence = TRUE
-INVARIANTS TypeOK ATAtomicRollback TCCAtomic NoDirtyGlobalWrite RollbackPossible
+INVARIANTS TypeOK ATAtomicRollback TCCAtomic NoDirtyGlobalWrite RollbackPossible DecisionTruthful
 CHECK_DEADLOCK FALSE
